@@ -11,6 +11,8 @@ GENERIC = ["", "a", "A", "abc", "ABC", "a b", " a", "a ", "é", "中文", "😀"
            # values of string formats that typify leaves as plain strings (and near-misses of the recognised ones)
            "2020-01-02T03:04:05", "2020-01-02 03:04:05", "2020-01-02T03:04:05.123", "2021-03-04T05:06:07+01:00",
            "2021-03-04 05:06:07 UTC", "03:04:05", "03:04:05Z", "P1DT2H", "a@b.example", "http://h/p?q#f", "10.0.0.0/8",
+           " 550e8400-e29b-41d4-a716-446655440000", "550e8400-e29b-41d4-a716-446655440000 ", "10.0.0.1 ", "\t::1", " fe80::1",
+           "2020-02-29\n", " 2021-03-04T05:06:07Z", "2021-03-04T05:06:07Z ",
            "550E8400-E29B-41D4-A716-446655440000", "550e8400e29b41d4a716446655440000", "1970-01-01", "0001-01-01T00:00:00Z"]
 
 
